@@ -28,6 +28,29 @@ def build_extractors(chk, specs):
     return out
 
 
+def _check_pins(chk, tag, index):
+    """The limit constants and library functions an entry reads are positional parameters of its Lean definition and the
+    theorems hold for every value of them: WHICH constant sits in which position is pinned in tools/pins/extras_<tag>.json
+    (tools/pin_extras.py) and compared here, so `min()` -> `epsilon()` in a guard cannot pass unnoticed."""
+    import json
+    pp = os.path.join(lib.VERIF, "tools", "pins", "extras_%s.json" % tag)
+    if not os.path.exists(pp):
+        chk.extra.setdefault("unpinned_tags", []).append(tag)
+        return
+    pins = json.load(open(pp))
+    moved = [(d["name"], pins[d["name"]], d.get("extra", "")) for d in index if d["name"] in pins and pins[d["name"]] != d.get("extra", "")]
+    new = [d["name"] for d in index if d["name"] not in pins]
+    name = "limits:%s: every entry reads exactly the numeric_limits constants / library functions it is pinned to (%d pinned)" % (tag, len(pins))
+    chk.oblige(name, "translator", not moved, ["%s: pinned [%s], now [%s]" % m for m in moved][:10] or None)
+    if new:
+        chk.extra.setdefault("unpinned_entries", {})[tag] = new[:50]
+    for fn, was, now in moved:
+        chk.fail(name, "limits:%s:%s" % (tag, fn),
+                 "%s now reads [%s] where it read [%s]: these are positional parameters of the generated definition and the theorems hold for "
+                 "every value of them, so the proofs cannot see which constant the code uses" % (fn, now, was),
+                 {"function": fn, "pinned": was, "current_tree": now, "pins_file": "tools/pins/extras_%s.json" % tag}, False)
+
+
 def regenerate(chk, binary, tag, idx_deps=()):
     """Run `<binary> emit` into a staging dir, install changed Gen modules, return
     the parsed index [{name, paths, status, module, ...}] and the list of changed modules."""
@@ -52,6 +75,7 @@ def regenerate(chk, binary, tag, idx_deps=()):
             k, _, v = p.partition("=")
             d[k] = v
         index.append(d)
+    _check_pins(chk, tag, index)
     changed = []
     with lib.Lock("lean"):
         for f in sorted(os.listdir(stage)):
